@@ -17,6 +17,7 @@ import math
 import numpy as np
 from common import req, close, relerr, TOL, run_driver
 import scen_sbm as S
+import c01
 
 META = {
     'text': 'PARTIAL. Theorems (Lean 4, over the reals, all states, all list lengths, EVERY integrator with hidden state): the right-hand side has depth rate <= 0 for zero vertical current and non-negative slip; zero mass rates for an inert particle without biodegradation and for K = 0 without biodegradation; non-positive mass rates in water free of the compounds; the loop stores non-negative masses (clipping), resets the heat to sum(m) cp Ta after equilibration, returns within 300001 passes with one of surface / stall / dissolved / step cap / 14-day cap (or the integrator reporting failure), drops negative-depth rows, keeps the initial row first (release position, masses of the diameter / mole-fraction conversion with total pi/6 de^3 rho, heat T0 sum(m0) cp); simulate writes K_T back. Real complete simulations over the quantifier are post-processed row by row for every predicate of the statement (incl. what VODE contributes: times, step size, monotone depth, mass bounds, depth inside the profile\'s own range), derivs / post-step / stop tests are compared with the Lean model on stored, raw (unclipped) and synthetic negative-mass states, two identical runs are compared bit for bit.',
@@ -83,6 +84,12 @@ def stop_flags(zmin, fdis, f, k, tP, zP, t, z):
                 capT=bool(t > 1209600))
 
 
+def molar_masses(composition):
+    """molar masses (kg/mol) from the harness's own SI reading of ChemData.csv (c01.feed_tables), not from the dbm object"""
+    crit = c01.feed_tables()['crit']
+    return np.array([crit[name]['M'] for name in composition], dtype=float)
+
+
 def particle_cp():
     """SingleParticle.cp as documented (dispersed_phases l.141): half the heat capacity of seawater"""
     from tamoc import seawater
@@ -109,7 +116,10 @@ def check_sim(ctx, idx, c, m, m2, stats):
     k_steps = len(raw)
     removed = k_steps + 1 - n
     ctx.count('rows', n)
-    zmin, zmax = float(prf.z_min), float(prf.z_max)
+    zmin, zmax = S.table_range(prf)           # depth range of OUR table, not the Profile object's attributes
+    if (float(prf.z_min), float(prf.z_max)) != (zmin, zmax):
+        viol('profile-bounds-differ-from-table', 'Profile.z_min / z_max differ from the first / last depth of the table the profile was built from',
+             z_min=float(prf.z_min), z_max=float(prf.z_max), table=[zmin, zmax])
     # ---- finite, non-negative masses ----------------------------------------------------
     if not np.isfinite(masses).all() or not np.isfinite(y[:, :3]).all() or not np.isfinite(t).all():
         i = int(np.argmax(~np.isfinite(y).all(axis=1)))
@@ -239,7 +249,12 @@ def check_sim(ctx, idx, c, m, m2, stats):
     with S.quiet():
         if obj.issoluble:
             rho = float(obj.density(m0, T0, P))
-            yk_back = np.array(obj.mol_frac(m0), dtype=float)
+            Mcsv = molar_masses(obj.composition)
+            if not close([float(v) for v in obj.M], [float(v) for v in Mcsv], TOL['gen_vs_source']):
+                viol('molar-mass-differs-from-ChemData', 'FluidParticle.M differs from the molar masses of ChemData.csv (g/mol -> kg/mol)',
+                     M=[float(v) for v in obj.M], ChemData=[float(v) for v in Mcsv])
+            nmol = m0 / Mcsv
+            yk_back = nmol / nmol.sum()
             ok_y = close([float(v) for v in yk_back], [float(v) for v in c['yk']], 1e-9)
         else:
             rho = float(obj.density(T0, P, Sa, Ta))
@@ -315,7 +330,7 @@ def reuse_histories(ctx, profiles, budget, stats):
     r = ctx.rng
     kinds = ['yk', 'de', 'T0', 'z0']
     nh = ctx.n(4, 24)
-    deep = [p for p in profiles if p[1].z_max >= 590. and p[1].z_min == 0.]
+    deep = [p for p in profiles if S.table_range(p[1])[1] >= 590. and S.table_range(p[1])[0] == 0.]
     for h in range(nh):
         vary = kinds[h % 4]
         name, prf = r.choice(deep)
@@ -440,7 +455,7 @@ def run(ctx, lean_ok):
         kind = c['descr']['kind']
         ctx.count('particle:' + kind)
         ctx.count('profile:' + c['profile'])
-        if c['prf'].z_min > 0:
+        if S.table_range(c['prf'])[0] > 0:
             ctx.count('profile top below the surface')
         ctx.nontrivial.add((kind, tuple(c['descr'].get('composition', ['inert'])), c['profile'], reason,
                             float('%.3g' % c['z0']), float('%.3g' % c['de'])))
@@ -463,9 +478,9 @@ def run(ctx, lean_ok):
         # initial row
         with S.quiet():
             if soluble:
-                m1 = obj.masses(np.array(c['yk'], dtype=float))
+                m1 = np.array(c['yk'], dtype=float) * molar_masses(obj.composition)
                 rho = float(obj.density(m1, T0 if T0 is not None else Ta0, P0))
-                lines.append(req('Sbm.massesByDiameter', math.pi, c['de'], rho, c['yk'], np.array(obj.M, dtype=float)))
+                lines.append(req('Sbm.massesByDiameter', math.pi, c['de'], rho, c['yk'], molar_masses(obj.composition)))
                 expect.append(('ic-masses', idx, [float(v) for v in y[0, 3:-1]]))
             else:
                 rho = float(obj.density(T0 if T0 is not None else Ta0, P0, Sa0, Ta0))
@@ -475,7 +490,7 @@ def run(ctx, lean_ok):
         expect.append(('ic-row', idx, [float(v) for v in y[0]]))
         # stop tests on EVERY pass (sampled when long): the real loop continued after every pass but the last;
         # the last pass is judged on the integrator's own last state (also when that row was removed afterwards)
-        zmin = float(prf.z_min)
+        zmin = S.table_range(prf)[0]
         passes = list(range(len(raw)))
         if len(passes) > 300:
             passes = sorted(set(r.sample(passes[:-3], 297) + passes[-3:]))
